@@ -14,6 +14,7 @@ import (
 	"encoding/json"
 	"fmt"
 	"io"
+	"math"
 	"math/bits"
 	"math/rand"
 	"os"
@@ -37,6 +38,7 @@ import (
 	common "go.opentelemetry.io/proto/otlp/common/v1"
 	resource "go.opentelemetry.io/proto/otlp/resource/v1"
 	trace "go.opentelemetry.io/proto/otlp/trace/v1"
+	"google.golang.org/protobuf/encoding/protowire"
 	"google.golang.org/protobuf/proto"
 
 	"verif/harness/hx"
@@ -390,12 +392,98 @@ func fromSpan(s *trace.Span) *OSpan {
 	return o
 }
 
+// ---- strings that are not UTF-8 in an OTLP request.  proto.Marshal refuses them, so such a field is written by hand (protowire) and handed to
+// the message as "unknown" bytes, which Marshal appends verbatim: on the wire it is an ordinary occurrence of the field.
+func avalUTF8(v AVal) bool {
+	switch v.T {
+	case "s":
+		return utf8.ValidString(v.S)
+	case "l":
+		for _, x := range v.L {
+			if !avalUTF8(x) {
+				return false
+			}
+		}
+	case "m":
+		for _, kv := range v.KV {
+			if !utf8.ValidString(kv.K) || !avalUTF8(kv.V) {
+				return false
+			}
+		}
+	}
+	return true
+}
+func rawAny(v AVal) []byte {
+	var b []byte
+	switch v.T {
+	case "s":
+		b = protowire.AppendTag(b, 1, protowire.BytesType)
+		b = protowire.AppendString(b, v.S)
+	case "b":
+		b = protowire.AppendTag(b, 2, protowire.VarintType)
+		b = protowire.AppendVarint(b, protowire.EncodeBool(v.B))
+	case "i":
+		b = protowire.AppendTag(b, 3, protowire.VarintType)
+		b = protowire.AppendVarint(b, uint64(v.I))
+	case "d":
+		b = protowire.AppendTag(b, 4, protowire.Fixed64Type)
+		b = protowire.AppendFixed64(b, math.Float64bits(float64(v.M)/1e6))
+	case "l":
+		var in []byte
+		for _, x := range v.L {
+			in = protowire.AppendTag(in, 1, protowire.BytesType)
+			in = protowire.AppendBytes(in, rawAny(x))
+		}
+		b = protowire.AppendTag(b, 5, protowire.BytesType)
+		b = protowire.AppendBytes(b, in)
+	case "m":
+		var in []byte
+		for _, kv := range v.KV {
+			in = protowire.AppendTag(in, 1, protowire.BytesType)
+			in = protowire.AppendBytes(in, rawKV(kv))
+		}
+		b = protowire.AppendTag(b, 6, protowire.BytesType)
+		b = protowire.AppendBytes(b, in)
+	case "y":
+		b = protowire.AppendTag(b, 7, protowire.BytesType)
+		b = protowire.AppendBytes(b, unhex(v.S))
+	}
+	return b
+}
+func rawKV(kv KV) []byte {
+	var b []byte
+	b = protowire.AppendTag(b, 1, protowire.BytesType)
+	b = protowire.AppendString(b, kv.K)
+	if kv.V.T != "n" {
+		b = protowire.AppendTag(b, 2, protowire.BytesType)
+		b = protowire.AppendBytes(b, rawAny(kv.V))
+	}
+	return b
+}
+
+// splitKVs: the attributes proto.Marshal takes, and the others as raw occurrences of field num
+func splitKVs(kvs []KV, num protowire.Number) (ok []KV, raw []byte) {
+	for _, kv := range kvs {
+		if utf8.ValidString(kv.K) && avalUTF8(kv.V) {
+			ok = append(ok, kv)
+		} else {
+			raw = protowire.AppendTag(raw, num, protowire.BytesType)
+			raw = protowire.AppendBytes(raw, rawKV(kv))
+		}
+	}
+	return
+}
+
 func otlpBody(rs []ORes) []byte {
 	td := &trace.TracesData{}
 	for _, r := range rs {
 		x := &trace.ResourceSpans{}
 		if r.HasRes {
-			x.Resource = &resource.Resource{Attributes: toKVs(r.Attrs)}
+			ok, raw := splitKVs(r.Attrs, 1)
+			x.Resource = &resource.Resource{Attributes: toKVs(ok)}
+			if raw != nil {
+				x.Resource.ProtoReflect().SetUnknown(raw)
+			}
 		}
 		if r.Schema {
 			x.SchemaUrl = "https://opentelemetry.io/schemas/1.21.0"
@@ -412,7 +500,19 @@ func otlpBody(rs []ORes) []byte {
 				}
 			}
 			for _, sp := range sc {
-				ss.Spans = append(ss.Spans, toSpan(sp))
+				var raw []byte
+				if !utf8.ValidString(sp.Name) {
+					raw = protowire.AppendTag(raw, 5, protowire.BytesType)
+					raw = protowire.AppendString(raw, sp.Name)
+					sp.Name = ""
+				}
+				ok, rawAttrs := splitKVs(sp.Attrs, 9)
+				sp.Attrs = ok
+				m := toSpan(sp)
+				if raw = append(raw, rawAttrs...); raw != nil {
+					m.ProtoReflect().SetUnknown(raw)
+				}
+				ss.Spans = append(ss.Spans, m)
 			}
 			x.ScopeSpans = append(x.ScopeSpans, ss)
 		}
@@ -1320,7 +1420,8 @@ func run(c *Case, silence bool) {
 
 // ---------------------------------------------------------------- generators
 
-var strPool = []string{"", "a", "b", "frontend", "db", "GET /x", "x y", "é", "quo\"te", "back\\slash", "line\nbreak", "0", "true", "svc-1", "cart"}
+var strPool = []string{"", "a", "b", "frontend", "db", "GET /x", "x y", "é", "quo\"te", "back\\slash", "line\nbreak", "0", "true", "svc-1", "cart",
+	"\xf4\x8f\xbf\xbf", "\xed\x9f\xbf\xee\x80\x80"} // the last two: U+10FFFF, U+D7FF U+E000 (the code points around the surrogates)
 var keyPool = []string{"service.name", "peer.service", "faas.name", "k8s.deployment.name", "process.executable.name", "remoteService.name",
 	"name", "a", "a.b", "a.0", "http.method", "http.status_code", "k", "k2", "", "é", "span.kind"}
 
@@ -1414,6 +1515,7 @@ const nowNs = uint64(1727700000000000000)
 func genOtlp(r *rand.Rand, c *Case, depth int) {
 	c.Fmt = "otlp"
 	cls := r.Intn(100)
+	badUTF := cls >= 82 && cls < 85 // 3 %: one string of the request is not UTF-8 (proto.Unmarshal refuses the whole request)
 	nilOK := cls >= 89 && cls < 92
 	noRes := cls >= 92 // 8 %: some resource groups lack the optional resource message, mixed with ordinary groups
 	badIDs := cls >= 85 && cls < 89
@@ -1427,6 +1529,8 @@ func genOtlp(r *rand.Rand, c *Case, depth int) {
 		c.Class = "otlp-noresource"
 	} else if badIDs {
 		c.Class = "otlp-badids"
+	} else if badUTF {
+		c.Class = "otlp-badutf8"
 	}
 	nres := 1 + r.Intn(3)
 	if noRes && nres == 1 && r.Intn(3) != 0 {
@@ -1546,6 +1650,38 @@ func genOtlp(r *rand.Rand, c *Case, depth int) {
 			res.ScopeMsg = append(res.ScopeMsg, r.Intn(3))
 		}
 		c.Otlp = append(c.Otlp, res)
+	}
+	if badUTF { // a span's name, an attribute key, a string value (top level or inside a key-value list or an array) of a span or of a resource
+		bad := pick(r, badUTF8)
+		res := &c.Otlp[r.Intn(len(c.Otlp))]
+		var sp *OSpan
+		for i := range c.Otlp {
+			for j := range c.Otlp[i].Scopes {
+				for k := range c.Otlp[i].Scopes[j] {
+					if sp == nil || r.Intn(3) == 0 {
+						sp = &c.Otlp[i].Scopes[j][k]
+					}
+				}
+			}
+		}
+		switch r.Intn(6) {
+		case 0:
+			sp.Name = bad
+		case 1:
+			sp.Attrs = append(sp.Attrs, KV{K: bad, V: AVal{T: "i", I: 1}})
+		case 2:
+			sp.Attrs = append(sp.Attrs, KV{K: "k", V: AVal{T: "s", S: bad}})
+		case 3:
+			sp.Attrs = append(sp.Attrs, KV{K: "m", V: AVal{T: "m", KV: []KV{{K: "in", V: AVal{T: "l", L: []AVal{{T: "s", S: "ok"}, {T: "s", S: bad}}}}}}})
+		case 4:
+			sp.Attrs = append(sp.Attrs, KV{K: "m", V: AVal{T: "m", KV: []KV{{K: bad, V: AVal{T: "b", B: true}}}}})
+		default:
+			if res.HasRes {
+				res.Attrs = append(res.Attrs, KV{K: "host", V: AVal{T: "s", S: bad}})
+			} else {
+				sp.Name = bad
+			}
+		}
 	}
 }
 
@@ -2209,6 +2345,19 @@ func main() {
 	depth := 3
 	if os.Getenv("SPANS_DEPTH") != "" {
 		depth, _ = strconv.Atoi(os.Getenv("SPANS_DEPTH"))
+	}
+	if n, _ := strconv.Atoi(os.Getenv("SPANS_UTF8")); n > 0 {
+		// byte strings over the bytes at which UTF-8 decides, with utf8.Valid's verdict (= what proto.Unmarshal applies to proto3 strings)
+		r := hx.Rand(fl.Seed)
+		al := []byte{0x00, 0x41, 0x7f, 0x80, 0x8f, 0x90, 0x9f, 0xa0, 0xbf, 0xc0, 0xc1, 0xc2, 0xdf, 0xe0, 0xe1, 0xec, 0xed, 0xee, 0xef, 0xf0, 0xf1, 0xf3, 0xf4, 0xf5, 0xff}
+		for i := 0; i < n; i++ {
+			b := make([]byte, r.Intn(7))
+			for j := range b {
+				b[j] = al[r.Intn(len(al))]
+			}
+			out.Put(map[string]any{"hex": hex.EncodeToString(b), "valid": utf8.Valid(b)})
+		}
+		return
 	}
 	if fl.Cases != "" {
 		hx.ReadLines(fl.Cases, func(b []byte) {
